@@ -834,10 +834,11 @@ func (ww *WW) opAt(seq int) string {
 // signedDuring: for a deterministic output of wallet w (by secret or B_), the operation during
 // which the mint first signed it; "" if it is not a deterministic output of w or was never signed.
 func (ww *WW) signedDuring(w, secret, b string) string {
-	d := ww.Det[w]
-	if d == nil {
+	if ww.node(w).W == nil {
 		return ""
 	}
+	ww.extendDet(w, 30)
+	d := ww.Det[w]
 	if b == "" {
 		e := d.bySec[secret]
 		if e == nil {
